@@ -210,6 +210,8 @@ def check_worklist(idx: Index, rep: Report) -> None:
             continue
         st_rm = [e_ for e_ in pth.effects if (isinstance(e_, ast.Assign) and isinstance(e_.targets[0], ast.Subscript) and attr_chain(e_.targets[0].value) == "self._stack") or (isinstance(e_, (ast.Expr, ast.Assign)) and isinstance(e_.value, ast.Call) and call_attr(e_.value) in ("pop", "remove") and attr_chain(e_.value.func.value) == "self._stack") or (isinstance(e_, ast.Delete) and any(isinstance(t_, ast.Subscript) and attr_chain(t_.value) == "self._stack" for t_ in e_.targets))]  # type: ignore[attr-defined]
         mp_rm = [e_ for e_ in pth.effects if (isinstance(e_, ast.Delete) and any(isinstance(t_, ast.Subscript) and attr_chain(t_.value) == "self._map" for t_ in e_.targets)) or (isinstance(e_, (ast.Expr, ast.Assign)) and isinstance(e_.value, ast.Call) and call_attr(e_.value) == "pop" and attr_chain(e_.value.func.value) == "self._map")]  # type: ignore[attr-defined]
+        if any(p_ and re.fullmatch(r"self\._map\.pop\(.+, None\) is None", t_) for t_, p_ in pth.nfacts()):
+            continue  # pop with a default on an absent item removes nothing
         if bool(st_rm) != bool(mp_rm):
             which = st_rm or mp_rm
             bad.append(("pairing", f"the path under {sorted(pth.nfacts())[:3]} performs `{unparse(which[0])}` but " + ("keeps the map entry: the item is gone from the stack while `item in worklist._map` stays true with a stale index, so a later push of the item is ignored and a later remove tombstones another item's slot" if st_rm else "leaves the item on the stack")))
